@@ -135,7 +135,8 @@ def explore(ctx):
         "disagreements": ndis,
         "history_dependent_outcomes": dependent,
         "rule": "every directed graph (self loops included) on 1 and 2 libraries%s x every assignment of node kinds (healthy, "
-                "missing, faulting body, wrong library name in the file, syntactically broken, not UTF-8), libraries supplied "
+                "missing, faulting body, fault in the middle of the body, wrong library name in the file, syntactically broken, not UTF-8, "
+                "the library second in its file after another library, after other top-level forms, defined twice in its file), libraries supplied "
                 "as files in the working directory and as registered sources, x histories of 1, 2 and 3 import attempts on "
                 "one interpreter%s; observable: outcome kind and location per attempt, compared model vs implementation; and "
                 "the outcome of every attempt is compared with the outcome of the same import on a fresh interpreter "
